@@ -8,7 +8,7 @@ from cgsim import gen as G, ref
 from cgsim.core import fp, Skip, state_digest
 
 ID = "C04"
-QUICK = dict(worlds=16, runs=800, seconds=25)
+QUICK = dict(worlds=16, runs=800, seconds=15)
 THOROUGH = dict(worlds=256, runs=4000, seconds=30)
 RULE = ("pairs of blackbox-free lint-clean circuits (copy / self / reference-side restructured / one gate mutated / "
         "unrelated sharing io names) x startpoint and endpoint subsets; distinct = canonical pair + subsets; "
